@@ -82,6 +82,10 @@ type txSpec struct {
 	Locks  []lockSpec `json:"locks"`
 	Prog   []instr    `json:"prog"`
 	Ensure bool       `json:"ensure,omitempty"` // Prepare calls WorldVirtualState().Ensure() like CallHandler does
+	// FailFirst: the first attempt runs the whole program (writes included) and then fails with
+	// ExecutionFailError; the executor resets the state (WorldVirtualState.Reset / WorldState.Reset)
+	// and retries.  Not modelled: the model sees the successful attempt only.
+	FailFirst bool `json:"failFirst,omitempty"`
 }
 
 // How the concurrent run is driven.
@@ -518,7 +522,7 @@ func jitter(seed int64, idx, point int) {
 func (h *hh) Execute(ctx contract.Context, wcs state.WorldSnapshot, estimate bool) (rct txresult.Receipt, err error) {
 	t := h.tx
 	b := t.b
-	t.execs.Add(1)
+	attempt := int(t.execs.Add(1)) - 1
 	point := 0
 	defer func() {
 		if r := recover(); r != nil {
@@ -579,6 +583,9 @@ func (h *hh) Execute(ctx contract.Context, wcs state.WorldSnapshot, estimate boo
 		}
 	}
 	pause() // before returning (the worker commits right after)
+	if b.bc.Txs[t.idx].FailFirst && attempt == 0 {
+		return nil, errors.ExecutionFailError.New("scripted failure of the first attempt")
+	}
 	t.obs = obs
 	r := txresult.NewReceipt(ctx.Database(), ctx.Revision(), t.to)
 	r.SetResult(module.StatusSuccess, big.NewInt(obsDigest(obs)), big.NewInt(0), nil)
@@ -669,7 +676,7 @@ func logger() log.Logger {
 }
 
 const (
-	watchdog   = 4 * time.Second
+	watchdog   = 8 * time.Second
 	quiescence = 400 * time.Microsecond
 	// generation stops after this many oracle failures (each hang costs a watchdog period)
 	maxFailures = 6
@@ -1246,7 +1253,7 @@ func genHotBlock(r *rand.Rand) *blockCase {
 			}
 			locks = genLocks(r, prog, 1, 2)
 		}
-		bc.Txs = append(bc.Txs, txSpec{Locks: locks, Prog: prog})
+		bc.Txs = append(bc.Txs, txSpec{Locks: locks, Prog: prog, FailFirst: r.Intn(8) == 0})
 	}
 	return bc
 }
@@ -1274,7 +1281,12 @@ func genBlock(r *rand.Rand, worldRead bool) *blockCase {
 		for j := 0; j < k; j++ {
 			prog = append(prog, genInstr(r, na, true))
 		}
-		bc.Txs = append(bc.Txs, txSpec{Locks: genLocks(r, prog, style, na), Prog: prog})
+		tx := txSpec{Locks: genLocks(r, prog, style, na), Prog: prog}
+		if !worldRead {
+			tx.Ensure = r.Intn(6) == 0
+			tx.FailFirst = r.Intn(8) == 0
+		}
+		bc.Txs = append(bc.Txs, tx)
 	}
 	if worldRead {
 		// make sure there is one
@@ -1287,6 +1299,26 @@ func genBlock(r *rand.Rand, worldRead bool) *blockCase {
 		if !has {
 			i := r.Intn(n)
 			bc.Txs[i].Locks = genLocks(r, bc.Txs[i].Prog, 3, na)
+		}
+		// often: the world reader reads an account that a LATER transaction (not the last
+		// one, which is dispatched at the end) writes; under a latest-first serial order the
+		// reader then observes the later write (the known finding) and the model must agree
+		if n >= 3 && r.Intn(2) == 0 {
+			for k := 0; k <= n-3; k++ {
+				if worldLock(&bc.Txs[k]) != 1 {
+					continue
+				}
+				j := k + 1 + r.Intn(n-2-k)
+				x := r.Intn(na)
+				bc.Txs[k].Prog = append(bc.Txs[k].Prog, instr{Op: "read", A: x})
+				if worldLock(&bc.Txs[j]) == 0 {
+					bc.Txs[j].Locks = append(bc.Txs[j].Locks, lockSpec{ID: x, W: true})
+				}
+				if canWrite(&bc.Txs[j], x) {
+					bc.Txs[j].Prog = append(bc.Txs[j].Prog, instr{Op: "add", A: x, K: int64(1 + r.Intn(9))})
+				}
+				break
+			}
 		}
 	}
 	return bc
@@ -1373,6 +1405,13 @@ func schedules(r *rand.Rand, bc *blockCase, count int) []blockCase {
 		}
 		b := *bc
 		b.Level, b.Sched = level, s
+		if s.Kind == "serial" {
+			// Ensure would block the dispatching goroutine before everything is dispatched
+			b.Txs = append([]txSpec(nil), bc.Txs...)
+			for i := range b.Txs {
+				b.Txs[i].Ensure = false
+			}
+		}
 		out = append(out, b)
 	}
 	lv := func() int { return 2 + r.Intn(7) }
